@@ -15,9 +15,20 @@ Decimal literals denote their decimal value (0.15 = 3/20).
 Besides `def f`, the translator emits `def f_denoms : List Rat` – every denominator the function
 may divide by – so that totality ("never raises ZeroDivisionError") is a theorem about the
 generated code.
+
+Floating-point reading (`TrFl`, file PhasesFl.lean): for the phase selectors listed in FL_FUNCS the
+same Python is translated a second time into `<name>_fl (fl : ℝ → ℝ) …` over the reals, where `fl` stands
+for rounding to the nearest double: int parameters and int (+,-,*,%,max,min) stay exact, every float
+operation is followed by exactly one `fl` (`x / y` on numbers -> `fl (x / y)`; `+ - *` with at least one
+float operand -> `fl (x op y)`, an int operand being cast exactly), every decimal literal `0.15` becomes
+`fl (3/20)`, module-level constants are re-translated from their defining expression (never folded),
+comparisons / and / or / not act on the resulting reals (Python compares int with float exactly).
+Properties/C14.lean proves that these take the same branches as the exact versions.
 """
 import ast
 import os
+
+from fractions import Fraction
 
 from translate import TranslationError, _lit_to_fraction, fold_const, rat_lit, write_if_changed
 
@@ -51,10 +62,16 @@ FUNCS = [
 ]
 
 
-LEAN_T = {"int": "Int", "rat": "Rat", "bool": "Bool", "optrat": "Option Rat"}
+LEAN_T = {"int": "Int", "rat": "Rat", "bool": "Bool", "optrat": "Option Rat", "real": "ℝ", "optreal": "Option ℝ"}
+
+# selectors that additionally get a floating-point reading `<name>_fl` (PhasesFl.lean)
+FL_FUNCS = ("identify_multimetric_phase", "identify_search_phase", "get_experiment_phase")
 
 
 class Tr:
+  frac = "rat"       # type of non-integer numbers
+  opt = "optrat"     # type of the optional fraction (dict literal with at most one key)
+
   def __init__(self, src, tree, spec, module_consts, sentinels):
     self.src = src
     self.tree = tree
@@ -71,9 +88,17 @@ class Tr:
   def cast(self, s, t, want):
     if t == want:
       return s
-    if t == "int" and want == "rat":
-      return f"(({s} : Int) : Rat)"
+    if t == "int" and want == self.frac:
+      return f"(({s} : Int) : {LEAN_T[self.frac]})"
     raise TranslationError(f"cannot cast {t} to {want}: {s}")
+
+  def frac_lit(self, q):
+    """a decimal literal of the source"""
+    return rat_lit(q)
+
+  def module_const(self, name):
+    """a module-level numeric constant"""
+    return rat_lit(self.consts[name]), "rat"
 
   def expr(self, n):
     """returns (lean string, type)"""
@@ -86,7 +111,7 @@ class Tr:
         q = _lit_to_fraction(n, self.src)
         if isinstance(n.value, int):
           return f"({int(q)} : Int)", "int"
-        return rat_lit(q), "rat"
+        return self.frac_lit(q), self.frac
       raise TranslationError(f"constant {n.value!r}")
     if isinstance(n, ast.Name):
       if n.id in self.env:
@@ -94,45 +119,31 @@ class Tr:
       if n.id in self.sentinels:
         return f"{self.sentinels[n.id]}.{n.id}", self.sentinels[n.id]
       if n.id in self.consts:
-        q = self.consts[n.id]
-        return rat_lit(q), "rat"
+        return self.module_const(n.id)
       raise TranslationError(f"unknown name {n.id}")
     if isinstance(n, ast.UnaryOp):
       if isinstance(n.op, ast.Not):
         return f"(!{self.boolean(n.operand)})", "bool"
       s, t = self.expr(n.operand)
-      if isinstance(n.op, ast.USub) and t in ("int", "rat"):
+      if isinstance(n.op, ast.USub) and t in ("int", self.frac):
         return f"(-{s})", t
       raise TranslationError("unary op")
     if isinstance(n, ast.BinOp):
       a, ta = self.expr(n.left)
       b, tb = self.expr(n.right)
-      if ta not in ("int", "rat") or tb not in ("int", "rat"):
+      if ta not in ("int", self.frac) or tb not in ("int", self.frac):
         raise TranslationError("arithmetic on non-numbers")
-      if isinstance(n.op, ast.Div):
-        bb = self.cast(b, tb, "rat")
-        self.denoms.append(bb)
-        return f"({self.cast(a, ta, 'rat')} / {bb})", "rat"
-      if isinstance(n.op, ast.Mod):
-        if ta == "int" and tb == "int":
-          self.denoms.append(self.cast(b, tb, "rat"))
-          return f"({a} % {b})", "int"   # Int.emod: sign follows Python for positive modulus
-        raise TranslationError("% on non-integers")
-      if isinstance(n.op, ast.Pow) and ta == "int" and tb == "int":
-        return f"({a} ^ ({b}).toNat)", "int"   # integer power with a non-negative exponent
-      op = {ast.Add: "+", ast.Sub: "-", ast.Mult: "*"}.get(type(n.op))
-      if op is None:
-        raise TranslationError(f"operator {type(n.op).__name__}")
-      t = "int" if ta == tb == "int" else "rat"
-      return f"({self.cast(a, ta, t)} {op} {self.cast(b, tb, t)})", t
+      return self.binop(n, a, ta, b, tb)
     if isinstance(n, ast.Call):
       fn = ast.unparse(n.func)
       if fn in ("max", "min") and len(n.args) == 2 and not n.keywords:
         a, ta = self.expr(n.args[0])
         b, tb = self.expr(n.args[1])
-        t = "int" if ta == tb == "int" else "rat"
+        t = "int" if ta == tb == "int" else self.frac
         return f"({fn} {self.cast(a, ta, t)} {self.cast(b, tb, t)})", t
       if fn in ("numpy.random.uniform", "numpy.random.random"):
+        if self.frac != "rat":
+          raise TranslationError(f"random draw {fn} has no floating-point reading")
         if id(n) in self.rnd_nodes:
           return self.rnd_nodes[id(n)], "rat"
         name = f"rnd{len(self.rnd)}"
@@ -149,21 +160,40 @@ class Tr:
       c = self.boolean(n.test)
       a, ta = self.expr(n.body)
       b, tb = self.expr(n.orelse)
-      t = ta if ta == tb else "rat"
+      t = ta if ta == tb else self.frac
       return f"(if {c} then {self.cast(a, ta, t)} else {self.cast(b, tb, t)})", t
     if isinstance(n, ast.Tuple):
       parts = [self.expr(e) for e in n.elts]
       return "(" + ", ".join(p[0] for p in parts) + ")", "tuple"
     if isinstance(n, ast.Dict):
       if not n.keys:
-        return "(none : Option Rat)", "optrat"
+        return f"(none : {LEAN_T[self.opt]})", self.opt
       if len(n.keys) == 1:
         v, tv = self.expr(n.values[0])
-        return f"(some {self.cast(v, tv, 'rat')} : Option Rat)", "optrat"
+        return f"(some {self.cast(v, tv, self.frac)} : {LEAN_T[self.opt]})", self.opt
       raise TranslationError("dict with several keys")
     if isinstance(n, (ast.Compare, ast.BoolOp)):
       return self.boolean(n), "bool"
     raise TranslationError(f"expression {type(n).__name__}")
+
+  def binop(self, n, a, ta, b, tb):
+    """arithmetic on two numbers"""
+    if isinstance(n.op, ast.Div):
+      bb = self.cast(b, tb, self.frac)
+      self.denoms.append(bb)
+      return f"({self.cast(a, ta, self.frac)} / {bb})", self.frac
+    if isinstance(n.op, ast.Mod):
+      if ta == "int" and tb == "int":
+        self.denoms.append(self.cast(b, tb, self.frac))
+        return f"({a} % {b})", "int"   # Int.emod: sign follows Python for positive modulus
+      raise TranslationError("% on non-integers")
+    if isinstance(n.op, ast.Pow) and ta == "int" and tb == "int":
+      return f"({a} ^ ({b}).toNat)", "int"   # integer power with a non-negative exponent
+    op = {ast.Add: "+", ast.Sub: "-", ast.Mult: "*"}.get(type(n.op))
+    if op is None:
+      raise TranslationError(f"operator {type(n.op).__name__}")
+    t = "int" if ta == tb == "int" else self.frac
+    return f"({self.cast(a, ta, t)} {op} {self.cast(b, tb, t)})", t
 
   def boolean(self, n):
     """Lean Bool/decidable Prop string usable after `if`."""
@@ -181,8 +211,8 @@ class Tr:
         sym = {ast.Lt: "<", ast.LtE: "≤", ast.Gt: ">", ast.GtE: "≥", ast.Eq: "=", ast.NotEq: "≠"}.get(type(op))
         if sym is None:
           raise TranslationError("comparison operator")
-        if ta in ("int", "rat") and tb in ("int", "rat"):
-          t = "int" if ta == tb == "int" else "rat"
+        if ta in ("int", self.frac) and tb in ("int", self.frac):
+          t = "int" if ta == tb == "int" else self.frac
           parts.append(f"{self.cast(a, ta, t)} {sym} {self.cast(b, tb, t)}")
         elif ta == tb and sym in ("=", "≠"):
           parts.append(f"{a} {sym} {b}")
@@ -224,7 +254,7 @@ class Tr:
         self.env = saved
         if a is None or b is None:
           return None
-        t = a[1] if a[1] == b[1] else "rat"
+        t = a[1] if a[1] == b[1] else self.frac
         cur = (f"(if {c} then {self.cast(a[0], a[1], t)} else {self.cast(b[0], b[1], t)})", t)
       else:
         raise TranslationError(f"unsupported statement in assigning branch: {type(x).__name__}")
@@ -315,6 +345,55 @@ class Tr:
       return out + self.stmts(rest, indent, top)
     raise TranslationError(f"statement {type(st).__name__}")
 
+class TrFl(Tr):
+  """Floating-point reading of the same Python: numbers that are not ints are reals produced by `fl`
+  (round to nearest double); every float operation is followed by exactly one rounding."""
+  frac = "real"
+  opt = "optreal"
+
+  def __init__(self, src, tree, spec, module_consts, sentinels):
+    super().__init__(src, tree, spec, module_consts, sentinels)
+    # module-level assignments `NAME = <expr>`: constants are re-translated (with their roundings), never folded
+    self.modnodes = {}
+    for st in tree.body:
+      if isinstance(st, ast.Assign) and len(st.targets) == 1 and isinstance(st.targets[0], ast.Name):
+        self.modnodes[st.targets[0].id] = st.value
+    self.in_const = []
+
+  def frac_lit(self, q):
+    q = Fraction(q)
+    if q.denominator == 1:
+      return f"(fl ({q.numerator} : ℝ))"
+    return f"(fl (({q.numerator} : ℝ) / {q.denominator}))"
+
+  def module_const(self, name):
+    if name not in self.modnodes or name in self.in_const:
+      raise TranslationError(f"module constant {name} has no floating-point reading")
+    saved = self.env
+    self.env = {}          # a module-level expression sees module names only
+    self.in_const.append(name)
+    try:
+      s, t = self.expr(self.modnodes[name])
+    finally:
+      self.env = saved
+      self.in_const.pop()
+    if t not in ("int", "real"):
+      raise TranslationError(f"module constant {name} is not a number")
+    return s, t
+
+  def binop(self, n, a, ta, b, tb):
+    if ta == "int" and tb == "int" and not isinstance(n.op, ast.Div):
+      s, t = super().binop(n, a, ta, b, tb)     # exact integer arithmetic
+      if t != "int":
+        raise TranslationError("integer arithmetic left the integers")
+      return s, t
+    # at least one float operand, or true division: one operation, one rounding; ints are converted exactly
+    # (CPython: int -> float is exact below 2^53, and int / int is the correctly rounded quotient of the integers)
+    op = {ast.Add: "+", ast.Sub: "-", ast.Mult: "*", ast.Div: "/"}.get(type(n.op))
+    if op is None:
+      raise TranslationError(f"operator {type(n.op).__name__} on floats")
+    return f"(fl ({self.cast(a, ta, 'real')} {op} {self.cast(b, tb, 'real')}))", "real"
+
 
 def module_info(path):
   src = open(path).read()
@@ -351,6 +430,8 @@ def generate(repo, gen_dir):
   ]
   enums = {}     # enum -> [names]
   bodies = []
+  fl_bodies = []
+  fl_ok = True
   ok = True
   mods = {}
   for spec in FUNCS:
@@ -409,9 +490,19 @@ def generate(repo, gen_dir):
         text += f"-- oracle parameter {nm} stands for a draw in [{lo}, {hi}]\n"
       bodies.append(text)
       status[f"pyfun:{spec['func']}"] = "ok"
+      if spec["func"] in FL_FUNCS:
+        try:
+          fl_bodies.append(generate_fl(src, tree, spec, consts, sentinels, body_stmts, all_params))
+          status[f"pyfun_fl:{spec['func']}"] = "ok"
+        except TranslationError as e:
+          fl_ok = False
+          status[f"pyfun_fl:{spec['func']}"] = f"error: {e}"
     except TranslationError as e:
       ok = False
       status[f"pyfun:{spec['func']}"] = f"error: {e}"
+      if spec["func"] in FL_FUNCS:
+        fl_ok = False
+        status[f"pyfun_fl:{spec['func']}"] = f"error: exact translation failed: {e}"
   for enum, names in enums.items():
     if not names:
       status[f"pyfun:{enum}"] = "error: no sentinels found"
@@ -427,4 +518,32 @@ def generate(repo, gen_dir):
     # leave a file that still parses but whose missing definitions break the dependent theorems
     ch = write_if_changed(os.path.join(gen_dir, "Phases.lean"), content)
     status["Phases"] = "error: some functions left the translatable subset"
+  # floating-point readings: a separate file (imports Mathlib's reals; never imported by the executable models / drivers).
+  # On error the file still parses, and the missing definitions break the dependent theorems.
+  fl_out = [
+    "/- GENERATED by harness/pyfun.py from the current libsigopt source. Do not edit.",
+    "   Floating-point reading of the phase selectors: `fl` is rounding to the nearest double; every float operation",
+    "   and every decimal literal is followed by exactly one `fl`; integer arithmetic is exact. -/",
+    "import Mathlib.Data.Real.Basic",
+    "import Model.Generated.Phases",
+    "set_option linter.unusedVariables false",
+    "namespace Gen",
+    "",
+  ] + fl_bodies + ["end Gen"]
+  ch = write_if_changed(os.path.join(gen_dir, "PhasesFl.lean"), "\n".join(fl_out) + "\n")
+  status["PhasesFl"] = ("changed" if ch else "same") if fl_ok else "error: some selectors have no floating-point reading"
   return status
+
+
+def generate_fl(src, tree, spec, consts, sentinels, body_stmts, all_params):
+  """`noncomputable def <func>_fl (fl : ℝ → ℝ) <same parameters>` – the floating-point reading of one selector"""
+  tr = TrFl(src, tree, spec, consts, sentinels)
+  ptypes = {"int": "Int", "rat": "ℝ", "bool": "Bool"}
+  for nm, t in all_params:
+    if nm == "fl":
+      raise TranslationError("a parameter is called fl")
+    tr.env[nm] = "real" if t == "rat" else t
+  body = tr.stmts(body_stmts, 1, True)
+  params = "(fl : ℝ → ℝ) " + " ".join(f"({nm} : {ptypes.get(t, t)})" for nm, t in all_params)
+  ret = spec["ret"].replace("Rat", "ℝ")
+  return f"-- {spec['module']}: {spec['func']} (floating-point reading)\nnoncomputable def {spec['func']}_fl {params} : {ret} :=\n{body}\n\n"
